@@ -665,6 +665,25 @@ theorem generated_delay_resp_is_model (e : Env) :
     unfold Ctor.eval msgDelayResp
     cases hw : timeToWire e.ts <;> simp [setAll, setField, HBase.eval, BodyC.eval, liftOv, hw, Except.map, bind, Except.bind, Option.bind])
 
+theorem generated_pdelay_resp_is_model (e : Env) :
+    ∀ c, Generated.pdelayRespCtor = some c → c.eval e = some (msgPdelayResp e.d e.pid e.req e.ts e.minor) := by
+  intro c h
+  unfold Generated.pdelayRespCtor at h
+  cases h
+  all_goals (
+    unfold Ctor.eval msgPdelayResp
+    cases hw : timeToWire e.ts <;> simp [setAll, setField, HBase.eval, BodyC.eval, liftOv, hw, Except.map, bind, Except.bind, Option.bind, baseHeader])
+
+theorem generated_pdelay_resp_follow_up_is_model (e : Env) :
+    ∀ c, Generated.pdelayRespFuCtor = some c →
+      c.eval e = some (msgPdelayRespFu e.d e.pid e.requestor e.seq e.ts e.minor) := by
+  intro c h
+  unfold Generated.pdelayRespFuCtor at h
+  cases h
+  all_goals (
+    unfold Ctor.eval msgPdelayRespFu
+    cases hw : timeToWire e.ts <;> simp [setAll, setField, HBase.eval, BodyC.eval, liftOv, hw, Except.map, bind, Except.bind, Option.bind])
+
 end Translated
 
 end Statime.C10
